@@ -44,6 +44,15 @@ func (date *Date) IsValid() bool {
 	return date.Month > 0 && date.Month < 13 && date.Day > 0 && date.Day < 40
 }
 
+// toUint8 narrows a parsed field; a value outside 0..255 becomes 255,
+// which every IsValid range check rejects, instead of wrapping around.
+func toUint8(v int64) uint8 {
+	if v < 0 || v > 255 {
+		return 255
+	}
+	return uint8(v)
+}
+
 func ParseDate(str string) (*Date, error) {
 	parts := strings.Split(str, "/")
 	if len(parts) != 3 {
@@ -64,7 +73,7 @@ func ParseDate(str string) (*Date, error) {
 	if err != nil {
 		return nil, err
 	}
-	return NewDate(int(y), uint8(m), uint8(d)), nil
+	return NewDate(int(y), toUint8(m), toUint8(d)), nil
 }
 
 func ParseDateList(str string) ([]*Date, error) {
